@@ -328,7 +328,33 @@ class Engine:
         sel = self.asserts if full else self._select(atoms, extra)
         zs = [(a[2] if (strict and a[2] is not None) else a[0]) for a in sel]
         zs.extend(extra)
-        return self._solve(zs, timeout_ms)
+        r = self._solve(zs, timeout_ms)
+        if extra and r[0] in ("sat", "unsat") and self.stats.get("second_solver_asked", 0) < self.o.get("second_solver", 0):
+            self._second_solver(zs, r[0])
+        return r
+
+    def _second_solver(self, zs, verdict):
+        """cross-check (DESIGN 1.6): the same query as SMT-LIB2 to the independent z3 4.8.12 binary; a definite answer that
+        contradicts the primary verdict is a harness error (exit 3), `unknown`/timeout/parse problems are only counted"""
+        import subprocess
+        self.stats["second_solver_asked"] = self.stats.get("second_solver_asked", 0) + 1
+        try:
+            s = z3.Solver()
+            for zz in zs:
+                s.add(zz)
+            txt = s.to_smt2()
+            p = subprocess.run(["/usr/bin/z3", "-in", "-T:10"], input=txt, capture_output=True, text=True, timeout=20)
+            out = p.stdout.strip().splitlines()
+            ans = out[0].strip() if out else "unknown"
+            if "(error" in p.stdout or ans not in ("sat", "unsat"):
+                self.stats["second_solver_inconclusive"] = self.stats.get("second_solver_inconclusive", 0) + 1
+            elif ans == verdict:
+                self.stats["second_solver_agree"] = self.stats.get("second_solver_agree", 0) + 1
+            else:
+                self.errors.append(dict(kind="second-solver-disagrees", config=self.config,
+                                        msg=f"z3 {z3.get_version_string()} says {verdict}, /usr/bin/z3 says {ans}"))
+        except Exception:
+            self.stats["second_solver_inconclusive"] = self.stats.get("second_solver_inconclusive", 0) + 1
 
     # ---------------------------------------------------------------- decisions
     def _add_pc(self, sb: SB, take: bool):
